@@ -91,6 +91,189 @@ def kernel_lines(rng, tier, have):
         out += emit("mpn_mul_basecase %s %s", vec([M] * n), vec([M] * n))
     return out
 
+def kext_lines(rng, tier, have):
+    """kernel-shaped inputs for the optional / internal kernels of harness/ops_c14.c (`k_*`)"""
+    out = []
+    def emit(fmt, *a):
+        ln = fmt % a
+        if ln.split(" ", 1)[0] in have: out.append(ln)
+    ns = list(range(1, 81)) + [rng.randrange(81, 400) for _ in range(5 if tier == "quick" else 25)] + ([1024, 1031] if tier != "quick" else [])
+    reps = 1 if tier == "quick" else 4
+    fobm1 = [3, 5, 15, 17, 51, 85, 255, 257, 65535, 65537, 641, 6700417, 0xFFFFFFFF, 0x5555555555555555, 0x3333333333333333, M]
+    for n in ns:
+        for r in range(reps + (1 if n <= 24 else 0)):
+            cls = rng.choice(["uniform", "uniform", "runs", "ones", "sparse", "zero" if r else "uniform"])
+            u, v, w = rand_limbs(rng, n, cls), rand_limbs(rng, n, rng.choice(["uniform", "runs", "ones", "sparse"])), rand_limbs(rng, n)
+            md = rng.choice([0, 0, 1, 2])
+            for op in ("k_addlsh1_n", "k_sublsh1_n", "k_rsh1add_n", "k_rsh1sub_n"): emit("%s %x %s %s", op, md, vec(u), vec(v))
+            for op in ("k_addlsh_n", "k_sublsh_n"): emit("%s %x %s %s %x", op, md, vec(u), vec(v), rng.randrange(1, 64))
+            for op in ("k_add_nc", "k_sub_nc"): emit("%s %x %s %s %x", op, md, vec(u), vec(v), rng.randrange(2))
+            for op in ("k_lshift1", "k_lshift2", "k_rshift1", "k_rshift2", "k_divexact_byff"): emit("%s %x %s", op, rng.randrange(2), vec(u))
+            emit("k_lshiftc %x %s %x", rng.randrange(2), vec(u), rng.randrange(1, 64))
+            for op in ("k_not", "k_double", "k_half", "k_popcount", "k_sqr_basecase"):
+                if op != "k_sqr_basecase" or n <= 16: emit("%s %s", op, vec(u))
+            emit("k_hamdist %s %s", vec(u), vec(v)); emit("k_store %x %x", n, rand_limb(rng))
+            for op in ("k_addadd_n", "k_addsub_n", "k_subadd_n"): emit("%s %x %s %s %s", op, rng.choice([0, 0, 1, 2, 3]), vec(u), vec(v), vec(w))
+            for op in ("k_sumdiff_n", "k_nsumdiff_n"): emit("%s %x %s %s", op, rng.choice([0, 0, 0, 1, 2, 3, 4, 5, 6]), vec(u), vec(v))
+            v2 = rand_limbs(rng, 2, rng.choice(["uniform", "ones", "sparse"]))
+            emit("k_mul_2 %s %s", vec(u), vec(v2)); emit("k_addmul_2 %s %s %s", vec(v), vec(u), vec(v2))
+            x = rand_limb(rng); c = rand_limb(rng)
+            emit("k_addmul_1c %s %s %x %x", vec(v), vec(u), x, c); emit("k_submul_1c %s %s %x %x", vec(v), vec(u), x, c)
+            emit("k_mullow_n_basecase %s %s", vec(u), vec(v))
+            for op in ("k_add_err1_n", "k_sub_err1_n"): emit("%s %x %s %s %s %x", op, md, vec(u), vec(v), vec(w), rng.randrange(2))
+            y2 = rand_limbs(rng, n, rng.choice(["uniform", "ones"]))
+            for op in ("k_add_err2_n", "k_sub_err2_n"): emit("%s %x %s %s %s %s %x", op, md, vec(u), vec(v), vec(w), vec(y2), rng.randrange(2))
+            f = rng.choice(fobm1)
+            q = rand_limbs(rng, n); prod = sum(x << (64 * i) for i, x in enumerate(q)) * f          # an exact multiple, and an arbitrary operand
+            emit("k_divexact_byfobm1 %x %s %x", rng.randrange(2), vec(limbs_of(prod, n)), f); emit("k_divexact_byfobm1 0 %s %x", vec(u), f)
+            qq = sum(x << (64 * i) for i, x in enumerate(q)) * M
+            emit("k_divexact_byff 0 %s", vec(limbs_of(qq, n)))
+            m = rand_limbs(rng, n, rng.choice(["uniform", "ones", "runs"])); m[0] |= 1
+            if rng.random() < 0.7: m[-1] |= 1 << 63
+            mv = sum(x << (64 * i) for i, x in enumerate(m))
+            t = rng.randrange(mv << (64 * n)) if rng.random() < 0.8 else (mv << (64 * n)) - 1
+            emit("k_redc_1 %s %s", vec(limbs_of(t, 2 * n)), vec(m))
+            if n >= 8:       # a real Karatsuba step: L = xl*yl, H = xh*yh, M = |xh-xl|*|yh-yl|
+                n2 = n // 2; n3 = n - n2
+                xv = sum(a << (64 * i) for i, a in enumerate(u)); yv = sum(a << (64 * i) for i, a in enumerate(v))
+                xl, xh, yl, yh = xv & ((1 << (64 * n2)) - 1), xv >> (64 * n2), yv & ((1 << (64 * n2)) - 1), yv >> (64 * n2)
+                rp = limbs_of(xl * yl, 2 * n2) + limbs_of(xh * yh, 2 * n3)
+                mm = abs(xh - xl) * abs(yh - yl); sgn = (xh >= xl) == (yh >= yl)      # product of differences >= 0 -> subtract
+                emit("k_karasub %s %s" if sgn else "k_karaadd %s %s", vec(rp), vec(limbs_of(mm, 2 * n3)))
+                if mm == 0: emit("k_karaadd %s %s", vec(rp), vec(limbs_of(0, 2 * n3)))
+        for un in ([n] if n > 30 else [n, n + 1, n + 3, 2 * n, 2 * n + 5]):
+            vn = n
+            emit("k_mulmid_basecase %s %s", vec(rand_limbs(rng, un, rng.choice(["uniform", "ones", "runs"]))), vec(rand_limbs(rng, vn, rng.choice(["uniform", "ones"]))))
+    return out
+
+def sel_vector(ctx):
+    """the resolved thresholds of the table the build under test was compiled with"""
+    vecs = dict(getattr(ctx, "shipped_vectors", []) or [])
+    link = os.path.join(ctx.build, "gmp-mparam.h")
+    rel = os.path.relpath(os.path.realpath(link), os.path.realpath(ctx.build)) if os.path.exists(link) else ""
+    return dict(vecs.get(rel) or vecs.get("mpn/x86_64/gmp-mparam.h") or [])
+
+NEVER = (1 << 63) - 1
+def value_lines(rng, tier, thr, have):
+    """crossover-focused inputs for the threshold-steered entry points (`c14_*`): sizes within +-2 of every threshold of
+    the table `thr`, the sizes whose halves / thirds land on a threshold (recursion), unbalanced shapes at 2*threshold."""
+    out = []
+    def emit(fmt, *a):
+        ln = fmt % a
+        if ln.split(" ", 1)[0] in have: out.append(ln)
+    def T(*names):
+        return [thr[n] for n in names if n in thr and 0 < thr[n] < NEVER]
+    def around(ts, lo=1, hi=12000, mult=(1,)):
+        s = set()
+        for t in ts:
+            for m in mult:
+                for d in (-2, -1, 0, 1, 2):
+                    if lo <= t * m + d <= hi: s.add(t * m + d)
+        return sorted(s)
+    big = 2600 if tier == "quick" else 12000
+    rl = lambda n, c=None: rand_limbs(rng, n, c or rng.choice(["uniform", "uniform", "runs", "ones", "sparse"]))
+    nz = lambda l: l[:-1] + [l[-1] | 1]
+    num = lambda l: sum(x << (64 * i) for i, x in enumerate(l))
+    # --- multiplication, squaring
+    mt = T("MUL_KARATSUBA_THRESHOLD", "MUL_TOOM3_THRESHOLD", "MUL_TOOM4_THRESHOLD", "MUL_TOOM8H_THRESHOLD", "MUL_FFT_FULL_THRESHOLD", "MUL_FFT_THRESHOLD")
+    st = T("SQR_BASECASE_THRESHOLD", "SQR_KARATSUBA_THRESHOLD", "SQR_TOOM3_THRESHOLD", "SQR_TOOM4_THRESHOLD", "SQR_TOOM8_THRESHOLD", "SQR_FFT_FULL_THRESHOLD", "SQR_FFT_THRESHOLD")
+    for n in around(mt, hi=big, mult=(1, 2, 3)) + list(range(1, 12)):
+        emit("c14_mul_n %s %s", vec(rl(n)), vec(rl(n)))
+    for n in around(st, hi=big, mult=(1, 2, 3)) + list(range(1, 12)):
+        emit("c14_sqr %s", vec(rl(n)))
+    for t in mt:
+        for ratio in (1.05, 1.3, 1.6, 2.0, 2.7, 3.4, 4.5, 7.0):
+            for d in (-1, 0, 1):
+                tot = 2 * t + d; vn = max(1, int(tot / (1 + ratio))); un = tot - vn
+                if 1 <= vn <= un and un + vn <= 2 * big: emit("c14_mul %s %s", vec(rl(un)), vec(rl(vn)))
+        if 6 * t <= 2 * big:
+            for tot in (6 * t - 1, 6 * t, 6 * t + 1):
+                vn = tot * 2 // 5; emit("c14_mul %s %s", vec(rl(tot - vn)), vec(rl(vn)))
+    for vn in around(T("MUL_KARATSUBA_THRESHOLD")):
+        for un in (vn + 1, 3 * vn, 9 * vn + 2): emit("c14_mul %s %s", vec(rl(un)), vec(rl(vn)))
+    for n in around(T("MULLOW_BASECASE_THRESHOLD", "MULLOW_DC_THRESHOLD", "MULLOW_MUL_THRESHOLD"), hi=big) + [1, 2, 3]:
+        emit("c14_mullow_n %s %s", vec(rl(n)), vec(rl(n)))
+    # --- division
+    dt = T("DC_DIV_QR_THRESHOLD", "INV_DIV_QR_THRESHOLD", "DC_DIV_Q_THRESHOLD", "INV_DIV_Q_THRESHOLD", "DC_DIVAPPR_Q_THRESHOLD", "INV_DIVAPPR_Q_N_THRESHOLD")
+    for dn in around(dt, hi=big // 2) + [1, 2, 3, 4, 5, 6, 7]:
+        for qn in sorted(set([1, 2, 3, dn - 1, dn, dn + 1, 2 * dn + 1] + ([rng.choice(dt)] if dt else []))):
+            if qn < 1 or dn + qn > 2 * big: continue
+            d = rl(dn, rng.choice(["uniform", "runs", "ones"])); d[-1] = d[-1] or 1
+            if rng.random() < 0.5: d[-1] |= 1 << 63
+            n = rl(dn + qn - 1)
+            if rng.random() < 0.3:       # built backwards: quotient limbs all ones, remainder d-1
+                n = limbs_of(((1 << (64 * (qn - 1))) - 1) * num(d) + num(d) - 1, dn + qn - 1)
+            emit("c14_tdiv_qr %s %s", vec(n), vec(d))
+    for dn in around(T("INV_DIV_QR_THRESHOLD", "INV_DIV_Q_THRESHOLD"), hi=big // 2):
+        d = rl(dn, "uniform"); d[-1] |= 1 << 63
+        emit("c14_tdiv_qr %s %s", vec(rl(2 * dn + 3)), vec(d))
+    t1 = T("MOD_1_1_THRESHOLD", "MOD_1_2_THRESHOLD", "MOD_1_3_THRESHOLD", "DIVREM_EUCLID_HENSEL_THRESHOLD", "DIVREM_HENSEL_QR_1_THRESHOLD",
+           "RSH_DIVREM_HENSEL_QR_1_THRESHOLD", "DIVREM_1_NORM_THRESHOLD", "DIVREM_1_UNNORM_THRESHOLD", "MOD_1_NORM_THRESHOLD", "MOD_1_UNNORM_THRESHOLD", "DIVEXACT_1_THRESHOLD")
+    dvals = [1, 2, 3, 7, 10, (1 << 62) + 1, (1 << 62) + 2, M // 3 + 1, M // 3 + 2, (1 << 63), (1 << 63) + 1, (1 << 63) + 2, M, M - 1, (1 << 32) + 15, 1 << 20]
+    for n in around(t1, hi=2000) + list(range(1, 9)):
+        for d in dvals + [rng.getrandbits(rng.randrange(2, 65)) | 1, rng.getrandbits(64) | (1 << 63), rng.getrandbits(61) << 1 | 2]:
+            u = rl(n)
+            emit("c14_mod_1 %s %x", vec(u), d); emit("c14_divrem_1 %s %x", vec(u), d)
+            emit("c14_divexact_1 %s %x", vec(limbs_of((num(u) >> 64) * d, n)), d)
+    # --- gcd, gcdext, invert
+    gt = T("GCD_DC_THRESHOLD", "GCDEXT_DC_THRESHOLD", "HGCD_THRESHOLD", "HGCD_APPR_THRESHOLD", "HGCD_REDUCE_THRESHOLD", "MATRIX22_STRASSEN_THRESHOLD", "JACOBI_DC_THRESHOLD")
+    for n in around(gt, hi=big // 2, mult=(1, 2)) + [1, 2, 3]:
+        a, b = num(rl(n, "uniform")), num(rl(max(1, n - rng.choice([0, 0, 1, 3])), "uniform"))
+        g = num(rl(rng.choice([1, 1, 2, max(1, n // 3)]), "uniform")) | 1
+        emit("c14_gcd %x %x", a, b); emit("c14_gcd %x %x", a * g, b * g)
+        emit("c14_gcdext %x %x", a, b)
+        if n <= 1200: emit("c14_invert %x %x", a, b | 1 if b > 1 else 3)
+    # --- powm (REDC choice, Karatsuba/sqr thresholds inside the window loop)
+    pt = T("REDC_1_TO_REDC_2_THRESHOLD", "REDC_2_TO_REDC_N_THRESHOLD", "REDC_1_TO_REDC_N_THRESHOLD", "MUL_KARATSUBA_THRESHOLD", "SQR_KARATSUBA_THRESHOLD", "SQR_BASECASE_THRESHOLD", "POWM_THRESHOLD")
+    for n in around(pt, hi=700) + [1, 2, 8, 9, 10]:
+        for odd in (1, 1, 0):
+            m = rl(n, rng.choice(["uniform", "runs", "ones"])); m[0] = (m[0] & ~1) | odd; m[-1] = m[-1] or 1
+            if num(m) <= 1: continue
+            e = rng.getrandbits(rng.choice([3, 17, 70, 130]))
+            emit("c14_powm %x %x %x", num(rl(max(1, n - rng.randrange(2)))), e, num(m))
+    # --- exact division (Hensel), binvert
+    bt = T("DC_BDIV_QR_THRESHOLD", "DC_BDIV_Q_THRESHOLD", "BINV_NEWTON_THRESHOLD", "INV_DIV_QR_THRESHOLD")
+    for dn in around(bt, hi=big // 2) + [1, 2, 7]:
+        for qn in (1, dn // 2 + 1, dn, dn + 3, 2 * dn + 1):
+            d = num(rl(dn, "uniform")) or 1; q = num(rl(qn))
+            if rng.random() < 0.5: d <<= rng.randrange(0, 130)
+            emit("c14_divexact %x %x", q * d, d)
+    # --- radix conversion
+    for un in around(T("GET_STR_DC_THRESHOLD", "GET_STR_PRECOMPUTE_THRESHOLD"), hi=600, mult=(1, 2, 4)) + [1, 2]:
+        for base in (10, 3, 7, 36, 62, 2, 16, 32, 45):
+            if base in (10, 3) or rng.random() < 0.4: emit("c14_get_str %x %s", base, hx(num(rl(un)) * rng.choice([1, 1, -1])))
+    digs = "0123456789ABCDEFGHIJKLMNOPQRSTUVWXYZabcdefghijklmnopqrstuvwxyz"
+    for ln in around(T("SET_STR_DC_THRESHOLD", "SET_STR_PRECOMPUTE_THRESHOLD"), hi=30000, mult=(1, 2)) + [1, 2, 19, 20, 21, 40]:
+        for base in (10, 3, 36, 62, 16, 7):
+            if base == 10 or rng.random() < 0.35:
+                dd = digs[:base] if base > 36 else digs[:base].lower()
+                emit("c14_set_str %x %s", base, sbytes(rng.choice(["", "-"]) + "".join(rng.choice(dd) for _ in range(ln))))
+    for n in around(T("FAC_ODD_THRESHOLD", "FAC_DSC_THRESHOLD"), hi=3000) + [0, 1, 2, 20, 21, 25, 26]:
+        emit("c14_fac_ui %x", n)
+    return out
+
+def gen_ops(rng, tier, ctx=None):
+    """main correspondence (default build): the `k_*` ops that have a C routine or fallback macro in this build, and the
+    `c14_*` entry points at the crossovers of the table the build was compiled with."""
+    have = harness_op_names()
+    if ctx is not None and getattr(ctx, "harness", None):
+        probe = {"k_addlsh1_n": "k_addlsh1_n 0 [1] [1]", "k_sublsh1_n": "k_sublsh1_n 0 [1] [1]", "k_addlsh_n": "k_addlsh_n 0 [1] [1] 1", "k_sublsh_n": "k_sublsh_n 0 [1] [1] 1",
+                 "k_rsh1add_n": "k_rsh1add_n 0 [1] [1]", "k_rsh1sub_n": "k_rsh1sub_n 0 [1] [1]", "k_add_nc": "k_add_nc 0 [1] [1] 0", "k_sub_nc": "k_sub_nc 0 [1] [1] 0",
+                 "k_lshiftc": "k_lshiftc 0 [1] 1", "k_mul_2": "k_mul_2 [1] [1,1]", "k_addmul_2": "k_addmul_2 [1] [1] [1,1]", "k_addmul_1c": "k_addmul_1c [1] [1] 1 1",
+                 "k_submul_1c": "k_submul_1c [1] [1] 1 1", "k_karaadd": "k_karaadd [0,0,0,0] [0,0]", "k_karasub": "k_karasub [0,0,0,0] [0,0]"}
+        rc, ans, err = vlib.run_stream(ctx.harness, list(probe.values()))
+        for (op, _), a in zip(probe.items(), ans):
+            if "!nokernel" in a or a.startswith("?"): have.discard(op)
+    if ctx is not None: ctx.c14_deferred = []
+    for ln in kext_lines(rng, tier, have):
+        # ops with a listed known finding run in `extra` (one report per disagreement) so that they cannot mask anything else here
+        if ln.split(" ", 1)[0] in DEFERRED_OPS and ctx is not None: ctx.c14_deferred.append(ln)
+        else: yield ln
+    yield from value_lines(rng, tier, sel_vector(ctx) if ctx is not None else {}, have)
+
+def nontrivial(line):
+    return line if ("," in line or len(line) > 40) else None
+
 def pool_lines(ctx, tier, wanted, cov):
     """op lines from every property generator (filtered to `wanted` op names) + kernel_lines"""
     t0 = time.time(); lines = []; srcs = {}
@@ -98,6 +281,8 @@ def pool_lines(ctx, tier, wanted, cov):
     have = harness_op_names()
     mine = kernel_lines(random.Random("C14-kern-%d" % ctx.seed), tier, have & wanted)
     srcs["c14_asm.kernel_lines"] = len(mine); lines += mine
+    mine = kext_lines(random.Random("C14-kext-%d" % ctx.seed), tier, have & wanted)
+    srcs["c14_asm.kext_lines"] = len(mine); lines += mine
     for f in sorted(glob.glob(os.path.join(pdir, "c*.py"))):
         name = os.path.basename(f)[:-3]
         if name.startswith("c14"): continue
@@ -235,9 +420,32 @@ def kernel_stage(ctx, cov):
         kc["found"], kc["assembled"], kc["executable_on_host"], dirs, len(tested), evals, len(kc["no_model_op"]), len(out), time.time() - t0))
     return out
 
+DEFERRED_OPS = {"k_nsumdiff_n"}
+
+def deferred_stage(ctx, cov):
+    """default build, ops of DEFERRED_OPS: every distinct (op, mode) disagreement is reported on its own"""
+    lines = getattr(ctx, "c14_deferred", None) or []
+    if not lines: return []
+    rc, impl, err = vlib.run_stream(ctx.harness, lines)
+    if rc != 0 or len(impl) != len(lines): raise RuntimeError("harness failed on deferred ops: rc=%d %s" % (rc, err[-500:]))
+    rc2, model, err2 = vlib.run_stream(ctx.driver, [a + " => " + b for a, b in zip(lines, impl)])
+    if rc2 != 0 or len(model) != len(lines): raise RuntimeError("Lean driver failed on deferred ops: %s" % err2[-500:])
+    out = []; seen = set()
+    bad = sorted(vlib.diff_streams(lines, impl, model), key=lambda b: len(b[1]))
+    for i, ln, a, b in bad:
+        key = tuple(ln.split(" ")[:2])
+        if key in seen: continue
+        seen.add(key)
+        p = replay_path(ctx.pid)
+        open(p, "w").write("# property %s  seed %d  tier %s  stage default-build\n# op: %s\n# implementation (portable C of the pinned build): %s\n# model/spec: %s\n%s\n" % (ctx.pid, ctx.seed, ctx.tier, ln, a, b, ln))
+        out.append(("%s | impl=%s | model=%s" % (ln, a, b), p))
+    cov["default_build_deferred_ops"] = {"lines": len(lines), "disagreements": len(bad)}
+    return out
+
 def extra(ctx, cov):
     out = []
     if getattr(ctx, "driver", None) is None: return out
+    out += deferred_stage(ctx, cov)
     out += kernel_stage(ctx, cov)
     return out
 
